@@ -42,6 +42,16 @@ type epWorld struct {
 
 var epw *epWorld
 
+// a stream whose Close does close, and reports an error (a TLS connection whose peer is gone does that)
+type epCloseErrStream struct{ qnet.Stream }
+
+func (s epCloseErrStream) Close() error {
+	s.Stream.Close()
+	return fmt.Errorf("close: the peer is gone")
+}
+
+var epCloseErr bool
+
 func epReset() string {
 	log.SetOutput(ioutil.Discard)
 	if epw != nil {
@@ -50,7 +60,11 @@ func epReset() string {
 	}
 	a, b := gonet.Pipe()
 	w := &epWorld{peer: b, peerDone: make(chan struct{})}
-	w.ep = qnet.NewEndPoint(qnet.ConnStream(a))
+	var stream qnet.Stream = qnet.ConnStream(a)
+	if epCloseErr {
+		stream = epCloseErrStream{stream}
+	}
+	w.ep = qnet.NewEndPoint(stream)
 	go func() { // the peer reads whatever the endpoint sends (error replies for blocked calls)
 		defer close(w.peerDone)
 		for {
@@ -115,6 +129,7 @@ func execEp(op string) func(a []string) string {
 		w := epw
 		switch op {
 		case "reset":
+			epCloseErr = len(a) > 0 && a[0] == "close-reports-an-error"
 			return epReset()
 		case "make":
 			after := false
@@ -255,7 +270,12 @@ func runC17(r *Rand, tier string, o *Out) {
 	}
 	msgID := uint32(100)
 	for s := 0; s < seqs; s++ {
-		o.Do("P", "ep.reset", false)
+		if r.Chance(30) {
+			o.Do("P", "ep.reset close-reports-an-error", false)
+			o.Count("stream:close-reports-an-error")
+		} else {
+			o.Do("P", "ep.reset", false)
+		}
 		o.Do("P", fmt.Sprintf("ep.make %d %d 0 64", sentinelMod, sentinelRes), false) // the sentinel: slot 0, uid 0
 		type dropH struct{ mod, res, id uint32 }
 		var drops []dropH // handlers that remove themselves on a message id
@@ -276,6 +296,25 @@ func runC17(r *Rand, tier string, o *Out) {
 			if o.Do("P", fmt.Sprintf("ep.msg %d %d 0", sentinelRes, msgID, ), false) == "sent" {
 				o.Do("P", "ep.sync", false)
 			}
+		}
+		if r.Chance(25) {
+			// a crowded table: more handlers than the ten slots it starts with, then most of the early ones leave:
+			// the handlers that stay live in the slots that were appended
+			m := 10 + r.Intn(6)
+			for j := 0; j < m; j++ {
+				mod := uint32(1 + r.Intn(3))
+				out := o.Do("P", fmt.Sprintf("ep.make %d %d 0 %d", mod, r.Intn(int(mod)), 2+r.Intn(3)), true)
+				if sl, err := strconv.Atoi(out); err == nil {
+					slots = append(slots, sl)
+				}
+			}
+			for j := 0; j < 9 && j < len(slots); j++ {
+				if r.Chance(85) {
+					o.Do("P", fmt.Sprintf("ep.remove %d", slots[j]), true)
+					removed = append(removed, slots[j])
+				}
+			}
+			o.Count("table:more-than-ten-handlers")
 		}
 		for i := 0; i < n; i++ {
 			k := r.Intn(100)
